@@ -21,7 +21,7 @@ SimInit ==
   /\ cfg = [mode |-> "unset"] /\ store = [r \in Rounds |-> "none"] /\ alast = 0 /\ slast = 0
   /\ called = [p \in Peers |-> FALSE] /\ tasks = [i \in 1..NT |-> FreeTask]
   /\ queue = <<>> /\ age = 3 /\ cur = 0 /\ ctxDone = FALSE /\ notif = 0 /\ agg = 0
-  /\ drv = [phase |-> "unset", pin |-> "genuine", reported |-> {}, todo |-> <<>>, retried |-> FALSE, failed |-> {}]
+  /\ drv = [phase |-> "unset", pin |-> "genuine", reported |-> {}, todo |-> <<>>, retried |-> FALSE, failed |-> {}, faults |-> 1]
   /\ obs = [kind |-> "init"] /\ hist = <<>> /\ stage = "choose"
 
 \* RandomElement is re-evaluated at every use, so every draw is first stored in a variable
